@@ -44,3 +44,27 @@ WEXPORT int64_t w_ds_roundtrip(const uint8_t* data, size_t n, const uint8_t* mas
   }
   W_CATCH_ALL
 }
+
+// format_data (hex dump core) on data cut into three iovecs [0,c1) [c1,c2) [c2,n) (any of them may be empty); everything the
+// function hands to write_data is appended to out. Returns the total length, W_CAPACITY if it does not fit.
+struct WSink { uint8_t* out; size_t cap; size_t pos; bool overflow; };
+WEXPORT int64_t w_format_data(const uint8_t* data, size_t n, size_t c1, size_t c2, uint64_t start_address, uint64_t flags, uint8_t* out, size_t cap) {
+  try {
+    WSink sink{out, cap, 0, false};
+    WSink* sp = &sink;
+    struct iovec iovs[3];
+    iovs[0].iov_base = const_cast<uint8_t*>(data); iovs[0].iov_len = c1;
+    iovs[1].iov_base = const_cast<uint8_t*>(data) + c1; iovs[1].iov_len = c2 - c1;
+    iovs[2].iov_base = const_cast<uint8_t*>(data) + c2; iovs[2].iov_len = n - c2;
+    format_data([sp](const void* p, size_t len) {
+      const uint8_t* b = reinterpret_cast<const uint8_t*>(p);
+      for (size_t i = 0; i < len; i++) {
+        if (sp->pos < sp->cap) sp->out[sp->pos] = b[i]; else sp->overflow = true;
+        sp->pos++;
+      }
+    }, iovs, 3, start_address, nullptr, 0, flags);
+    if (sink.overflow) return W_CAPACITY;
+    return static_cast<int64_t>(sink.pos);
+  }
+  W_CATCH_ALL
+}
